@@ -44,6 +44,9 @@ func Gen(t *rapid.T) Scenario {
 	if rapid.IntRange(0, 2).Draw(t, "restart") == 0 {
 		sc.RestartFull = rapid.IntRange(1, sc.Blocks-1).Draw(t, "restartat")
 	}
+	if sc.Mode != "p2p-only" && rapid.IntRange(0, 3).Draw(t, "restartagg") == 0 {
+		sc.RestartAgg = rapid.IntRange(1, sc.Blocks-1).Draw(t, "restartaggat")
+	}
 	n := rapid.IntRange(1, 4).Draw(t, "nsteps")
 	at := 0
 	seq := 0
